@@ -43,7 +43,7 @@ def run(ctx):
             nontriv.add(l)
     dres = do.run_dopt(ctx, 3000 if ctx.quick else 60000, seed=s + 40)
     cres = dc.run_detailed(ctx, 1200 if ctx.quick else 30000, seed=s + 20, prop="C02")
-    for key in ("legal_fail", "check_fail", "throw_fail", "crash"):
+    for key in ("legal_fail", "shift_fail", "check_fail", "throw_fail", "crash"):
         ofail += [(l, w, "DetailedPlacer driven directly: " + why) for l, w, why in dres[key][:2]]
     for key in ("legal_fail", "fixed_fail", "throw_fail", "crash"):
         ofail += [(x[0], x[1], "Circuit::placeDetailed: " + x[2]) for x in cres[key][:2]]
@@ -69,6 +69,7 @@ def run(ctx):
                 "exhaustive": True, "exhaustive_sequences": len(exh), "ops_performed": ops_ok, "ops_refused": ops_no,
                 "direct_drive": do.summary(dres), "placeDetailed_runs": dc.summary(cres),
                 "exposed_states_checked_legal": cres["states"] + dres["ops"],
+                "shift_passes_checked_against_proved_guard": dres["shifts_checked"],
                 "samples": [lines[0], exh[len(exh) // 2], cres["lines"][0][:500]],
                 "model_vs_impl_differences": len(mism), "impl_outputs_violating_statement": len(ofail)})
     return ctx.finish(LEVEL, cov, ["legality after the shift pass is validated, not proved",
